@@ -4,14 +4,14 @@ namespace SfVerif
 open SfVerif.Gen
 
 theorem updateAt_inv {b : Bytes} {g : Node → Node × Got} (hg : NodeOpOK b g) :
-    ∀ (path : Path) {pos : Nat} {n n' : Node} {got : Got}, GoodAt b pos → Inv b pos n →
+    ∀ (path : Path) {pos : Nat} {n n' : Node} {got : Got}, Inv b pos n →
       n.updateAt path g = some (n', got) → Inv b pos n'
-  | [], pos, n, n', got, hgood, hinv, h => by
+  | [], pos, n, n', got, hinv, h => by
     simp only [Node.updateAt, Option.some.injEq] at h
-    have := hg.inv pos n hgood hinv
+    have := hg.inv pos n hinv
     rw [h] at this; exact this
-  | .key i :: rest, pos, n, n', got, hgood, hinv, h => by simp [Node.updateAt] at h
-  | .elem i :: rest, pos, n, n', got, hgood, hinv, h => by
+  | .key i :: rest, pos, n, n', got, hinv, h => by simp [Node.updateAt] at h
+  | .elem i :: rest, pos, n, n', got, hinv, h => by
     cases hinv with
     | scalar hh => simp [Node.updateAt] at h
     | objClosed hh hlen hpre => simp [Node.updateAt] at h
@@ -46,9 +46,7 @@ theorem updateAt_inv {b : Bytes} {g : Node → Node × Got} (hg : NodeOpOK b g) 
             obtain ⟨last', r⟩ := x
             rw [hu] at h; simp only [Option.some.injEq, Prod.mk.injEq] at h
             obtain ⟨rfl, rfl⟩ := h
-            have hsc : specChild b pos (.elem init.length) = some e := by
-              simp only [specChild, hh]; rw [if_pos (by omega)]; exact (pre_facts hpre).2.2 _ (fuel_ok b body)
-            have hl' := updateAt_inv hg rest (good_child hgood hsc) hl hu
+            have hl' := updateAt_inv hg rest hl hu
             have hext := (updateAt_spec g hg.ext rest last last' r hu).1
             exact Inv.arrOpened hh hlen hpre (by rw [shape_comp hext.shape]; exact hcomp) hl'
         · rw [show init.length + 1 - 1 - i = (init.length - 1 - i) + 1 by omega] at h
@@ -65,7 +63,7 @@ theorem updateAt_inv {b : Bytes} {g : Node → Node × Got} (hg : NodeOpOK b g) 
               exact updateAt_done_id hg rest hdc hcu)
             rw [this]; exact Inv.arrOpened hh hlen hpre hcomp hl
       · rw [if_neg hi] at h; cases h
-  | .val i :: rest, pos, n, n', got, hgood, hinv, h => by
+  | .val i :: rest, pos, n, n', got, hinv, h => by
     cases hinv with
     | scalar hh => simp [Node.updateAt] at h
     | arrClosed hh hlen hpre => simp [Node.updateAt] at h
@@ -100,11 +98,7 @@ theorem updateAt_inv {b : Bytes} {g : Node → Node × Got} (hg : NodeOpOK b g) 
             obtain ⟨last', r⟩ := x
             rw [hu] at h; simp only [Option.some.injEq, Prod.mk.injEq] at h
             obtain ⟨rfl, rfl⟩ := h
-            have hkp : specKeyPos b pos init.length = some s0 := by
-              simp only [specKeyPos, hh]; rw [if_pos (by omega)]; exact (preP_facts hpre).2.2 _ (fuel_ok b body)
-            have hsc : specChild b pos (.val init.length) = some ke0 := by
-              simp only [specChild, hkp, hk0]
-            have hl' := updateAt_inv hg rest (good_child hgood hsc) hl hu
+            have hl' := updateAt_inv hg rest hl hu
             have hext := (updateAt_spec g hg.ext rest last last' r hu).1
             exact Inv.objOpened hh hlen hpre hk0 (by rw [shape_comp hext.shape]; exact hcomp) hl'
         · rw [show init.length + 1 - 1 - i = (init.length - 1 - i) + 1 by omega] at h
